@@ -15,7 +15,7 @@
     cursors, malformed text, rename overflow) is decided each run by the correspondence and the
     before/after oracle. *)
 From DV Require Import Model.Base Model.NameCheck Model.Parser Model.Header Model.Readers Model.Uncompress
-  Model.Mutate Spec.PlainSpec Proofs.Hoare Proofs.HeaderBits Proofs.InsertLemmas Proofs.PlainWf Proofs.InsertFail Proofs.InsertSpec Proofs.HeaderInv.
+  Model.Mutate Spec.PlainSpec Proofs.Hoare Proofs.HeaderBits Proofs.InsertLemmas Proofs.PlainWf Proofs.InsertFail Proofs.InsertSpec Proofs.HeaderInv Spec.RecordSpec Proofs.WalkSkip Proofs.ReplaceInv Proofs.Totality.
 
 Theorem C10_insert_bound : forall sec rr s s',
   m_insert_rr sec rr s = (s', Ok tt) -> (N.of_nat (length (pp_packet (fst s'))) <= 8192)%N.
@@ -51,3 +51,36 @@ Print Assumptions C10_failed_insert_keeps_invariant.
 Theorem C10_failed_insert_changes_nothing : forall v it sec rr s' e, dinv v -> m_insert_rr sec rr (v, it) = (s', Err e) -> s' = (v, it).
 Proof. exact failed_insert_on_dinv. Qed.
 Print Assumptions C10_failed_insert_changes_nothing.
+
+(** the cursor operations on a decompressed object (any state satisfying the C08 invariant, cursor on a non-OPT record of a record
+    section): the owner-name and address setters either succeed or report an error with the object and the cursor exactly as they
+    were - there is no third outcome (no Panic of the model: no assertion, slice, subtraction or unwrap of the code fails); *)
+Theorem C10_failed_set_name_changes_nothing : forall nm v it qls qt lA lN lR r x,
+  dinv v -> bytes_ok nm -> reading (pp_packet v) qls qt lA lN lR -> In (r, x) (lA ++ lN ++ lR) -> is_opt r = false ->
+  it_offset it = Some (rv_off r) -> it_name_end it = rv_name_end r -> it_offset_next it = rv_name_end r + 10 + rv_rdlen r ->
+  it_section it <> SQuestion ->
+  (exists s', m_set_raw_name nm (v, it) = (s', Ok tt)) \/ (exists e, m_set_raw_name nm (v, it) = ((v, it), Err e)).
+Proof. exact set_raw_name_outcome. Qed.
+Print Assumptions C10_failed_set_name_changes_nothing.
+
+Theorem C10_failed_set_ip_changes_nothing : forall v it ip qls qt lA lN lR r x,
+  dinv v -> reading (pp_packet v) qls qt lA lN lR -> In (r, x) (lA ++ lN ++ lR) ->
+  it_offset it = Some (rv_off r) -> it_name_end it = rv_name_end r ->
+  (exists s', m_set_ip ip (v, it) = (s', Ok tt)) \/ (exists e, m_set_ip ip (v, it) = ((v, it), Err e)).
+Proof. exact set_ip_outcome. Qed.
+Print Assumptions C10_failed_set_ip_changes_nothing.
+
+(** deletion and the TTL setter cannot fail there *)
+Theorem C10_delete_succeeds : forall v it qls qt lA lN lR r x,
+  dinv v -> reading (pp_packet v) qls qt lA lN lR -> In (r, x) (lA ++ lN ++ lR) -> is_opt r = false ->
+  it_offset it = Some (rv_off r) -> it_name_end it = rv_name_end r -> it_offset_next it = rv_name_end r + 10 + rv_rdlen r ->
+  exists s', m_delete (v, it) = (s', Ok tt).
+Proof. exact delete_total. Qed.
+Print Assumptions C10_delete_succeeds.
+
+Theorem C10_set_ttl_succeeds : forall v it t qls qt lA lN lR r x,
+  dinv v -> reading (pp_packet v) qls qt lA lN lR -> In (r, x) (lA ++ lN ++ lR) ->
+  it_offset it <> None -> it_name_end it = rv_name_end r ->
+  exists s', m_set_ttl t (v, it) = (s', Ok tt).
+Proof. exact set_ttl_total. Qed.
+Print Assumptions C10_set_ttl_succeeds.
